@@ -103,9 +103,9 @@ CHECKS = {
          "History-table reads are limited to commits of the reader's branch in which the table had its present name. AS OF timestamps are not generated.",
          "deterministic simulation: seeded histories with GC / restart / process-death events (crash images of a dolt_commit re-opened by a fresh engine), recorded-state oracle over three historical read paths", "DESIGN.md §6.3 C33", "dsim-sql"),
  "C47": ("exploration",
-         "One server directory with the root database and up to two nested databases behind the production SQL engine; seeded CREATE DATABASE, filling (tables, rows, commits, branches, tags, checkouts, staged and unstaged changes), DROP DATABASE, re-creation under the same name, CALL dolt_undrop (also with another letter case), CALL dolt_purge_dropped_databases and clean restarts; a logical fingerprint taken through SQL just before each DROP (branches, tags, logs, status and every row of every table of every branch) must be what dolt_undrop brings back; an undrop onto a live name must fail and leave the live database unchanged; after a purge nothing may come back.",
-         "Only the most recently dropped database of a name is expected back. No crash or I/O fault is injected into the directory moves.",
-         "deterministic simulation: seeded drop/create/undrop/purge/restart orders, SQL-level fingerprint oracle", "DESIGN.md §6.3 C47", "dsim-sql"),
+         "One server directory with the root database and up to two nested databases behind the production SQL engine; seeded CREATE DATABASE, filling (tables, rows, commits, branches, tags, checkouts, staged and unstaged changes), DROP DATABASE, re-creation under the same name, CALL dolt_undrop (also with another letter case), CALL dolt_purge_dropped_databases and clean restarts; a logical fingerprint taken through SQL just before each DROP (branches, tags, logs, status and every row of every table of every branch) must be what dolt_undrop brings back; an undrop onto a live name must fail and leave the live database unchanged; after a purge nothing may come back. Half of the runs end with a DROP DATABASE / dolt_undrop whose server dies at structural file-system events of the statement: on every crash image a fresh engine must show every other database unchanged, the moved database still there or restorable with its fingerprint, and everything that was in the trash still restorable.",
+         "The trash is modelled by exact spelling (d1 and D1 lie side by side; an older database of the same spelling is pushed aside and not expected back). Crash model: the rename of a directory is one journal transaction (old place or new place, never both or neither).",
+         "deterministic simulation: seeded drop/create/undrop/purge/restart orders with crash images inside the directory moves, SQL-level fingerprint oracle", "DESIGN.md §6.3 C47, §11 2026-09-22", "dsim-sql"),
  "C08": ("exploration",
          "A repository history is built through SQL behind the production engine (commits, second table, branch with working-set-only rows, tag, deleted branch, stash, in-progress conflicted merge, staged and unstaged rows; drawn per run); then CALL dolt_gc (default / --full / --archive-level 0, once or twice, session-aware safepoint controller) runs as one task of the seeded S1 scheduler, parked before BeginGC, every MarkAndSweepChunks, every SaveHashes, Finalize, AddChunksToStore, SwapChunksInStore, EndGC and PruneTableFiles, while 1-3 writer sessions (transactions opened before the collection and committed during or after it) run statements in between. Afterwards and again after a clean restart: the SQL fingerprint of everything the writers do not touch is unchanged; every row whose commit was acknowledged is present; no writer statement failed for a non-transactional reason; a walk from the store root over every reference reads every chunk with bytes that hash to its address.",
          "Writers run whole statements between scheduling points (a statement blocked by the collection lets the collector go on). Interactive rebase / revert / cherry-pick state and statistics refs are not part of the generated histories. The yield points sit in a wrapper around the ValueStore's chunk store installed through the overlay's white-box accessor; no dolt code is changed.",
